@@ -4,7 +4,7 @@ import struct
 
 from ..models import energy as E
 
-FORMATS_RATE = (8, 10, 16, 100, 1000, 8000, 16000, 44100)
+FORMATS_RATE = (8, 10, 16, 100, 1000, 8000, 16000, 44100, 11025, 22050, 32000, 48000, 96000, 192000)
 LIM = {1: 127, 2: 32767, 4: 2147483647}
 THR_RANGE = {1: (8.0, 34.0), 2: (12.0, 80.0), 4: (20.0, 170.0)}
 
